@@ -382,6 +382,14 @@ impl TypeRt<'_> {
                     x.shape.make_row();
                     self.stack.push(x);
                 }
+                // The fused forms of first or last of rise or fall, see the primitives
+                ImplPrimitive::FirstMinIndex
+                | ImplPrimitive::FirstMaxIndex
+                | ImplPrimitive::LastMinIndex
+                | ImplPrimitive::LastMaxIndex => {
+                    self.pop()?;
+                    self.stack.push(Ty::new(ScalarType::Real, []));
+                }
                 ImplPrimitive::UnBox => {
                     let x = self.pop()?;
                     self.stack.push(x.unboxed());
@@ -469,6 +477,43 @@ impl TypeRt<'_> {
                         return Err(TypeError::StackUnderflow);
                     }
                     self.stack.insert(below, kept);
+                }
+                Rows => {
+                    // The function gets the rows of the arguments,
+                    // and its outputs are the rows of the results
+                    let [f] = get_args(args)?;
+                    if f.sig.args() == 0 {
+                        return Err(TypeError::NotSupported);
+                    }
+                    let below = (self.stack.len())
+                        .checked_sub(f.sig.args())
+                        .ok_or(TypeError::StackUnderflow)?;
+                    let mut count = None;
+                    for ty in &mut self.stack[below..] {
+                        // A scalar is repeated for every row, and so is a single row
+                        if ty.shape.is_empty() {
+                            continue;
+                        }
+                        let n = ty.shape.row_count();
+                        match count {
+                            None | Some(1) => count = Some(n),
+                            Some(c) if c == n || n == 1 => {}
+                            Some(_) => return Err(TypeError::Other),
+                        }
+                        ty.shape.make_row();
+                        ty.int = None;
+                    }
+                    let Some(count) = count else {
+                        return Err(TypeError::NotSupported);
+                    };
+                    self.node(&f.node)?;
+                    let outputs = (self.stack.len())
+                        .checked_sub(f.sig.outputs())
+                        .ok_or(TypeError::StackUnderflow)?;
+                    for ty in &mut self.stack[outputs..] {
+                        ty.shape.prepend(count);
+                        ty.int = None;
+                    }
                 }
                 Reduce => {
                     let [f] = get_args(args)?;
